@@ -74,6 +74,15 @@ CLAIMED["C07"] = (
     "DESIGN.md §3 C07",
 )
 
+CLAIMED["C08"] = (
+    "proptest generated CSG x depth x transform x backend x threads; mesh validity predicates (edge-manifoldness always; orientation, vertex placement and volume vs a reference occupancy grid for resolved shapes)",
+    "Generated-input search with validity predicates rather than one expected mesh: closedness (each directed edge once, reverse once), no degenerate "
+    "triangles, finite coordinates for every generated shape; for shapes resolved at the chosen depth, outward winding (signed volume and field increase "
+    "along normals) and enclosed volume against a brute-force occupancy grid at half the cell size. Exploration.",
+    "Resolution gate and escaped-vertex detection are computed from the reference grid / the field, not from the mesher. Two open findings (F8 pinched edge, F9 unclamped QEF vertex) are matched by signature and reported as KNOWN-FINDING.",
+    "DESIGN.md §3 C08",
+)
+
 NOT_YET = {
 }
 
